@@ -345,11 +345,13 @@ SPECS["C07"] = CheckSpec(
 
 SPECS["C08"] = CheckSpec(
     "C08", c08_jobs,
-    rule="explicit-state BFS over fault conversations (15 answers incl. send failure, foreign session, cut response, "
-         "duplicate / unknown withdrawal, malformed PDU, cache restart; open fails / fails slowly; Serial Notify, "
+    rule="explicit-state BFS over fault conversations (18 answers incl. send failure, foreign session, response cut "
+         "by a timeout / by a transport error, duplicate / unknown withdrawal, malformed PDU, cache restart, "
+         "Unsupported-Version report and version-0 answer (version change); open fails / fails slowly; Serial Notify, "
          "transport error, silent publication while ESTABLISHED); from EVERY distinct reachable state a second "
          "execution replays the history and then lets cache and transport behave: the client must reach ESTABLISHED "
-         "with exactly the cache's current data within refresh+expire+4*retry of simulated time, and no execution may "
+         "with exactly the cache's current data (prefix part only once the socket speaks version 0) within "
+         "refresh+expire+4*retry of simulated time, and no execution may "
          "make 400 environment calls without consuming input, sending, or letting time advance",
     assumptions=_ENVX_ASSUME + ["bounded liveness from every reachable state under a finite menu, not LTL over "
                                 "arbitrary environments"],
